@@ -482,3 +482,14 @@ m('c09-rem-ref-owned-operands-swapped', ['C09'], 'Rem<BigDecimal> for &BigDecima
 m('c09-remassign-wrong-order', ['C09'], 'RemAssign', [
   ('src/impl_ops_rem.rs', "        let rem = (&*self).rem(other);", "        let rem = other.rem(&*self);")],
   'a %= b stores b % a')
+# ---- C05 (radix / exponent clauses)
+m('c05-radix-16-accepted', ['C05'], ':radix', [
+  ('src/impl_num.rs', "        if radix != 10 {", "        if radix != 10 && radix != 16 {")],
+  'hexadecimal strings are parsed as decimals with hex digits')
+m('c05-exponent-wraps', ['C05'], 'exponent-range', [
+  ('src/impl_num.rs', """        let scale = decimal_offset
+                    .checked_sub(exponent_value)
+                    .and_then(|scale| scale.to_i64())""", """        let scale = decimal_offset
+                    .checked_sub(exponent_value)
+                    .map(|scale| scale as i64)""")],
+  'exponents beyond i64 wrap instead of erroring (1e9223372036854775808)')
